@@ -50,7 +50,7 @@ class C02(Prop):
             bg = [dyad(rng, 1, 8, 8) for _ in range(nd)]
             cases.append({"dom": dom, "F": F, "S": S, "K": (K.tolist() if isinstance(K, np.ndarray) else K), "Kkind": kk,
                           "baseline": (base.tolist() if isinstance(base, np.ndarray) else base), "bkind": bk,
-                          "X": X, "bg": bg, "addb": rng.random() < 0.75,
+                          "X": X, "bg": bg, "addb": rng.random() < 0.75, "decoy": rng.random() < 0.6,
                           "kind": "K-%s/base-%s/%s" % (kk, bk, dk)})
         return cases
 
@@ -62,6 +62,12 @@ class C02(Prop):
         base = np.array(case["baseline"]) if isinstance(case["baseline"], list) else case["baseline"]
         def mk():
             e = dreye.ReceptorEstimator(F, domain=dom, K=K, baseline=base)
+            if case.get("decoy", True):
+                # a different system is registered and queried first: the answers below must depend
+                # only on the system registered last
+                e.register_system(S[::-1] * 0.5 + 0.25)
+                e.system_relative_capture(np.ones(S.shape[0])); e.system_capture(np.ones(S.shape[0]))
+                e.relative_capture(S[0])
             e.register_system(S)
             return e
         est = mk()
